@@ -70,6 +70,10 @@ pub struct World {
     /// last a second time (while the first copy may still be parked for its owner)
     #[serde(default)]
     pub repeat_strays: bool,
+    /// bit i: the reply to request i starts with an XML declaration (a conforming peer is free to
+    /// write one)
+    #[serde(default)]
+    pub xml_decl: u8,
 }
 
 type Tagged = Result<String, String>;
@@ -443,7 +447,13 @@ pub fn run_world(w: &World) -> Result<Trace, String> {
                         .find(|(ri, _)| *ri == i)
                         .expect("unreplied requests were received")
                         .1;
-                    wire.push(reply_for(w.ops[i], id, &tags[i]));
+                    let mut reply = reply_for(w.ops[i], id, &tags[i]);
+                    if w.xml_decl & (1 << (i % 8)) != 0 {
+                        let mut with_decl = b"<?xml version=\"1.0\" encoding=\"UTF-8\"?>\n".to_vec();
+                        with_decl.append(&mut reply);
+                        reply = with_decl;
+                    }
+                    wire.push(reply);
                     replied.insert(i);
                     release_order.push(i);
                     trace.log.push(format!("release reply {i}"));
@@ -803,11 +813,11 @@ fn world_strategy(max_n: usize, drops: bool, sched_len: usize) -> BoxedStrategy<
                 ],
                 prop::bool::weighted(0.3),
                 prop::option::weighted(0.08, 0u8..6),
-                any::<bool>(),
+                (any::<bool>(), prop_oneof![2 => Just(0u8), 1 => any::<u8>()]),
             )
         })
         .prop_map(
-            |(ops, arrival, groups, sequential, strays, gate_closes, drops, schedule, send_faults, slow_flush, big_reply, repeat_strays)| World {
+            |(ops, arrival, groups, sequential, strays, gate_closes, drops, schedule, send_faults, slow_flush, big_reply, (repeat_strays, xml_decl))| World {
                 ops,
                 arrival,
                 groups,
@@ -820,6 +830,7 @@ fn world_strategy(max_n: usize, drops: bool, sched_len: usize) -> BoxedStrategy<
                 slow_flush,
                 big_reply,
                 repeat_strays,
+                xml_decl,
             },
         )
         .boxed()
@@ -834,7 +845,7 @@ impl Prop for C05 {
     }
     fn rule(&self) -> String {
         "worlds of 1..6 pipelined requests (get-config with tagged data, lock answered ok or with a \
-         tagged rpc-error) x arrival permutation x placement of the reply futures (one task each / \
+         tagged rpc-error; a third of the worlds put an XML declaration in front of some replies) x arrival permutation x placement of the reply futures (one task each / \
          grouped and joined / grouped and awaited sequentially) x up to 2 stray replies (unknown id, the next request's id, or a repeat of the reply released last) x up to 2 \
          closures of the send gate x a generated schedule (each step picks among: poll a woken \
          task, release the next reply, inject a stray, let one pending send through); after the schedule \
